@@ -106,8 +106,10 @@ NoneSelected(series, ms) ==
     \E n \in Names(ms) : \/ \E m \in { x \in ms : x.name = n } : EmptyGroup(ToPostingGroup(series, m))
                          \/ EmptyGroup(GroupOf(series, ms, n))
 
-UnionAdd(series, n, g) == UNION { P(series, n, v) : v \in g.add }
-UnionRem(series, n, g) == UNION { P(series, n, v) : v \in g.rem }
+(* = UNION { P(series, n, v) : v \in keys }, in one pass over the series *)
+UnionP(series, n, keys) == { s.id : s \in { x \in series : LVal(x.ls, n) # "" /\ LVal(x.ls, n) \in keys } }
+UnionAdd(series, n, g) == UnionP(series, n, g.add)
+UnionRem(series, n, g) == UnionP(series, n, g.rem)
 
 (* ExpandedPostings + fetchLazyExpandedPostings + the lazy matchers applied in nextBatch.       *)
 (* lazy = the set of label names whose group is NOT fetched (its matchers are checked on the     *)
@@ -123,9 +125,10 @@ ExpandNames(series, ms, lazy) ==
              hasAdds == \E n \in ns : g(n).add # {}
              fetched == kept \ lazy
              adders == { n \in fetched : g(n).add # {} }
+             addSet == [nn \in adders |-> UnionAdd(series, nn, g(nn))]
              base == IF allRequested /\ ~hasAdds THEN AllIds(series)        \* the special "all postings" group
                      ELSE IF adders = {} THEN {}                            \* index.Intersect() of nothing
-                     ELSE { i \in AllIds(series) : \A n \in adders : i \in UnionAdd(series, n, g(n)) }
+                     ELSE { i \in AllIds(series) : \A n \in adders : i \in addSet[n] }
              removed == UNION { UnionRem(series, n, g(n)) : n \in fetched }
              fromIndex == base \ removed
              lazyMs == { m \in ms : m.name \in lazy }
